@@ -192,8 +192,11 @@ class Packet(_with_metaclass(bisturi.packet_builder.MetaPacket, object)):
         # placeholder (Em) have no value: their slot, if any, is never set
         from bisturi.structural_fields import Move
         from bisturi.field import Em
+        # A described field (Auto, AutoLength) is read through its
+        # descriptor, as the user reads it: its hidden slot is only brought
+        # up to date when the packet is packed
         return [
-            name for name, f, _, _ in self.get_fields()
+            f.descriptor_name or name for name, f, _, _ in self.get_fields()
             if not isinstance(f, (Move, Em))
         ]
 
